@@ -15,6 +15,7 @@ LEVEL = "exploration"
 TECHNIQUE = ('deterministic simulation with the reframe fault: row sequence re-cut into frames by tape decisions (rows sliced, never re-encoded), flat and grouped real parsers; grouped writes through one shared stream')
 LEVEL_NOTE = ('sampled streams and partitions')
 OPTIMIZED_EVERY = 25      # every 25th run is executed in a child interpreter started with python -O
+PBPY_EVERY = 50           # every 50th run (offset 6) is executed with protobuf's pure-Python backend
 COMPILED_EVERY = 25       # every 25th run (offset 12) is executed in a child that imports a mypyc build of the tree
 RUNS = {"quick": 40000, "thorough": 800000}
 RULE = ("(reframe) the row sequence of a valid stream (real writer / reference encoder) is re-cut into frames at "
